@@ -70,6 +70,26 @@ def idealCvt (c : Cfg) (D : Nat) (E : Int) : Ideal → Ideal
   | .val e v => idealNarrow c.tag D E (rescale (rmode c.mode) E e v)
   | o => o
 
+/-- `x << k` in `D` digits: `x · 2^k` when it fits, otherwise the overflow reaction -/
+def idealShl (tag : OvTag) (D : Nat) (k : Nat) : Ideal → Ideal
+  | .val e v => idealNarrow tag D e (v * 2^k)
+  | o => o
+
+/-- `x >> k`: `⌊x / 2^k⌋` -/
+def idealShr (k : Nat) : Ideal → Ideal
+  | .val e v => .val e (v / 2^k)
+  | o => o
+
+/-- a constant shift of a static_number: the same significand at another exponent -/
+def idealMoveExp (k : Int) : Ideal → Ideal
+  | .val e v => .val (e + k) v
+  | o => o
+
+/-- `x << constant<k>` on a static_integer: exact, the type widens -/
+def idealShlWiden (k : Nat) : Ideal → Ideal
+  | .val e v => .val e (v * 2^k)
+  | o => o
+
 /-- ideal evaluation of a history -/
 def evalIdeal (c : Cfg) : SExpr → Ideal
   | .lit x => .val x.exp x.value
@@ -79,6 +99,11 @@ def evalIdeal (c : Cfg) : SExpr → Ideal
   | .div a b => idealBin (rmode c.mode) .div (evalIdeal c a) (evalIdeal c b)
   | .neg a => idealNeg (evalIdeal c a)
   | .cvt D E a => idealCvt c D E (evalIdeal c a)
+  | .shl D k a => idealShl c.tag D k (evalIdeal c a)
+  | .shr k a => idealShr k (evalIdeal c a)
+  | .shlN k a => idealMoveExp k (evalIdeal c a)
+  | .shlI k a => idealShlWiden k (evalIdeal c a)
+  | .shrI k a => idealShr k (evalIdeal c a)
 
 /-! ## the exact result of one operator, with the digits its type declares -/
 
@@ -139,6 +164,13 @@ def KnownDefect (c : Cfg) (E : Int) (x : SNum) : Prop :=
 instance (c : Cfg) (E : Int) (x : SNum) : Decidable (KnownDefect c E x) := by
   unfold KnownDefect NarrowingDropsAllDigits RoundedExceedsIntermediate; exact inferInstance
 
+/-- class `C11.shr_constant_below_declared_range` (the elastic layer's open finding
+`C05.shr_negative_below_declared_range` seen through a static_integer): `x >> constant<k>` has
+`digits − k` digits but `⌊x / 2^k⌋ = −2^(digits − k)`, one below the declared range -/
+def ShrBelowRange (k : Nat) (x : SNum) : Prop := x.value / 2^k < -(2^(x.digits - k) - 1 : Int)
+
+instance (k : Nat) (x : SNum) : Decidable (ShrBelowRange k x) := by unfold ShrBelowRange; exact inferInstance
+
 /-- `p` holds of the value `r` returns, if it returns one -/
 def onOk {α : Type} (r : Res α) (p : α → Prop) : Prop :=
   match r with
@@ -157,7 +189,10 @@ instance {α : Type} (r : Res α) (p : α → Prop) [DecidablePred p] : Decidabl
   | .ill _ => isTrue trivial
 
 /-- side conditions of a history: literals are in range, no divisor (as the model computes it) is
-zero, and no conversion meets one of the two open defect classes at its (model-computed) argument -/
+zero, no conversion meets one of the two open defect classes at its (model-computed) argument, the
+digit annotation of a run-time left shift is the operand's digit count, and a constant right shift
+of a static_integer removes fewer digits than there are and stays outside the open class
+`ShrBelowRange` -/
 def SideOK (c : Cfg) : SExpr → Prop
   | .lit x => x.InRange
   | .add a b => SideOK c a ∧ SideOK c b
@@ -166,6 +201,11 @@ def SideOK (c : Cfg) : SExpr → Prop
   | .div a b => SideOK c a ∧ SideOK c b ∧ onOk (evalModel c b) (fun y => y.value ≠ 0)
   | .neg a => SideOK c a
   | .cvt _ E a => SideOK c a ∧ onOk (evalModel c a) (fun x => ¬ KnownDefect c E x)
+  | .shl D _ a => SideOK c a ∧ onOk (evalModel c a) (fun x => x.digits = D)
+  | .shr _ a => SideOK c a
+  | .shlN _ a => SideOK c a
+  | .shlI _ a => SideOK c a
+  | .shrI k a => SideOK c a ∧ onOk (evalModel c a) (fun x => k < x.digits ∧ ¬ ShrBelowRange k x)
 
 instance SideOK.dec (c : Cfg) : (e : SExpr) → Decidable (SideOK c e)
   | .lit x => inferInstanceAs (Decidable x.InRange)
@@ -175,5 +215,10 @@ instance SideOK.dec (c : Cfg) : (e : SExpr) → Decidable (SideOK c e)
   | .div a b => @instDecidableAnd _ _ (SideOK.dec c a) (@instDecidableAnd _ _ (SideOK.dec c b) inferInstance)
   | .neg a => SideOK.dec c a
   | .cvt _ _ a => @instDecidableAnd _ _ (SideOK.dec c a) inferInstance
+  | .shl _ _ a => @instDecidableAnd _ _ (SideOK.dec c a) inferInstance
+  | .shr _ a => SideOK.dec c a
+  | .shlN _ a => SideOK.dec c a
+  | .shlI _ a => SideOK.dec c a
+  | .shrI _ a => @instDecidableAnd _ _ (SideOK.dec c a) inferInstance
 
 end Cnl.Static
